@@ -296,6 +296,40 @@ def r4_scoping(ctx):
     return r
 
 
+def r6_literal_text(ctx):
+    """the string flavour of a plain literal key is `Literal::into_str`, every other flavour prints the value with Display:
+    each impl must denote the Display text of the value (MIR return summaries / paths, py/mirsum.py)"""
+    import mirsum
+    from rules.common import msum
+    r = Rule("C02.R6", "the string flavour of a literal key is the Display text of the literal",
+             "`t_string!` on a literal key returns Literal::into_str(value) while `t!`, `t_display!` and the const accessor print the value "
+             "with Display: an impl that formats differently (Debug, another precision, another spelling of a boolean) makes the flavours "
+             "disagree for exactly those values", floor=5)
+    prog = ctx.mir("main")
+    impls = sorted(nm for nm in prog.bodies if re.search(r"^<.+ as leptos_i18n::macro_helpers::Literal>::into_str$", nm))
+    for nm in impls:
+        ty = nm[1:nm.index(" as ")]
+        b = prog.body("^" + re.escape(nm) + "$") if False else prog.bodies[nm]
+        got = msum(prog, "^" + re.escape(nm) + "$")
+        summ = got[0][1] if got else None
+        ok = False
+        what = None
+        if summ == "p1" and "str" in ty:
+            ok, what = True, "the string itself"
+        elif summ == "ToString::to_string(p1)":
+            ok, what = True, "ToString::to_string(value): the Display text"
+        elif ty == "bool":
+            ps = mirsum.paths(prog, b, depth=0)
+            want = {(("eq", ("p", 1), "0"),): ("const", "false"), (("ne", ("p", 1), "0"),): ("const", "true")}
+            if ps is not None and len(ps) == 2 and all(not tr and want.get(tuple(c)) == res for c, tr, res in ps):
+                ok, what = True, "true -> \"true\", false -> \"false\" (what Display prints)"
+        if ok:
+            r.inst("Literal for " + ty, what)
+        else:
+            r.viol("R6:Literal::into_str#" + ty, "the string flavour of a `%s` literal is `%s`, not the Display text of the value the other flavours print" % (ty, summ if summ else "a computed text"), file="leptos_i18n/src/macro_helpers/mod.rs", line=b.line)
+    return r
+
+
 def run(ctx):
     # both flavours denote the text only if each of them emits every piece: the emission clauses of C01.R4 (the view
     # back-end regroups large blocs into nested tuples, the string back-end does not; decided by rules/c01.py)
@@ -304,7 +338,7 @@ def run(ctx):
     r5 = borrow(c01.r4_emission(ctx), "C02.R5", "each back-end emits every collected piece, in order",
                 "`all denote the same text`: a piece dropped by one back-end only (e.g. while regrouping a long value for the view) "
                 "makes the flavours diverge on that value", floor=20)
-    return [r1_siblings(ctx), r2_output_table(ctx), r3_input_table(ctx), r4_scoping(ctx), r5]
+    return [r1_siblings(ctx), r2_output_table(ctx), r3_input_table(ctx), r4_scoping(ctx), r5, r6_literal_text(ctx)]
 
 
 MANIFEST_ENTRY = {
